@@ -96,9 +96,10 @@ inline tainted<T_Lhs, T_Sbx> sandbox_static_cast(
   if constexpr (std::is_pointer_v<T_Lhs> && std::is_pointer_v<T_Rhs>) {
     // Within a class hierarchy a static_cast moves the pointer (to or from a
     // base that is not the first): it has to stay in the sandbox it was in
-    auto from = reinterpret_cast<const void*>(
-      taintedVal.INTERNAL_unverified_safe());
-    auto to = reinterpret_cast<const void*>(raw);
+    auto from = const_cast<const void*>(reinterpret_cast<const volatile void*>(
+      taintedVal.INTERNAL_unverified_safe()));
+    auto to =
+      const_cast<const void*>(reinterpret_cast<const volatile void*>(raw));
     if (to != from) {
       detail::dynamic_check(
         to == nullptr || rlbox_sandbox<T_Sbx>::is_in_same_sandbox(from, to),
